@@ -104,7 +104,7 @@ class Env:
         k = o[0]
         if k == "var":
             if len(o) > 2:
-                shape = tuple(o[2])
+                shape = None if o[2] is None else tuple(o[2])  # None = unknown rank
             return self.spox.argument(self.spox.Tensor(np.dtype(self.dtypes[o[1]]), shape))
         if k == "int":
             return o[1]
@@ -115,7 +115,12 @@ class Env:
         if k == "np":
             v = o[2] if len(o) > 2 else 3
             return np.dtype(self.dtypes[o[1]]).type(v if o[1] != 11 else bool(v))
-        return {"none": None, "str": "abc", "ellipsis": ...}[o[1] if len(o) > 1 else "none"]
+        from fractions import Fraction as _Fr
+
+        return {"none": None, "str": "abc", "ellipsis": ..., "list": [1, 2], "bytes": b"3", "numstr": "3", "dtypestr": "f4",
+                "arr0": np.array(2), "arr1": np.array([1, 2]), "complex": 1j, "fraction": _Fr(1, 2), "dict": {"a": 1},
+                "set": {1}, "gen": (i for i in range(2)), "varlist": [self.spox.argument(self.spox.Tensor(np.int64, ()))],
+                "type": int}[o[1] if len(o) > 1 else "none"]
 
     def err_name(self, e):
         return type(e).__name__
@@ -410,16 +415,22 @@ def value_case(env: Env, opname, oa, ob, settings=(True, True), const_path=False
             y = None if xb is None else np.broadcast_to(xb, got.shape)[idx]
             tkind = "float" if want.dtype.kind == "f" else "int"
             key = f"{opname}:{tkind}:wrong-value"
-            if opname == "floordiv" and tkind == "float" and all(
-                    classify_floordiv_float(np, np.broadcast_to(xa, got.shape)[tuple(i)],
-                                            np.broadcast_to(xb, got.shape)[tuple(i)], got[tuple(i)], want[tuple(i)], want.dtype)
-                    for i in np.argwhere(~ok)):
-                key = "floordiv:float:rounded-quotient"
-            elif opname == "floordiv" and tkind == "float" and all(
-                    classify_floordiv_nonfinite(np, np.broadcast_to(xa, got.shape)[tuple(i)],
-                                                np.broadcast_to(xb, got.shape)[tuple(i)], want.dtype)
-                    for i in np.argwhere(~ok)):
-                key = "floordiv:float:non-finite-or-underflow"
+            if opname == "floordiv" and tkind == "float":
+                # both faces of Floor(Div) vs numpy's fmod-based floor_divide are listed findings; a grid may show both
+                bx, by = np.broadcast_to(xa, got.shape), np.broadcast_to(xb, got.shape)
+                fam = []
+                for i in np.argwhere(~ok):
+                    i = tuple(i)
+                    if classify_floordiv_float(np, bx[i], by[i], got[i], want[i], want.dtype):
+                        fam.append("floordiv:float:rounded-quotient")
+                    elif classify_floordiv_nonfinite(np, bx[i], by[i], want.dtype):
+                        fam.append("floordiv:float:non-finite-or-underflow")
+                    else:
+                        fam.append(None)
+                        x, y, idx = bx[i], by[i], i
+                        break
+                if None not in fam:
+                    key = "floordiv:float:rounded-quotient" if "floordiv:float:rounded-quotient" in fam else fam[0]
             elif opname == "floordiv" and tkind == "int" and (x < 0) != (y < 0) and got[idx] == want[idx] + 1:
                 key = "floordiv:int:opposite-signs-nonzero-remainder"
             out.append((key, f"{describe(env, opname, oa, ob)} at a={x!r}, b={y!r}: spox {got[idx]!r}, numpy {want[idx]!r} "
@@ -991,6 +1002,279 @@ def shape_value_case(env: Env, opname, da, db, sa, sb):
     return out
 
 
+
+# --------------------------------------------------------------------------- symbolic static shapes
+# Operators on Vars whose STATIC shapes contain named dimensions (equal names, different names, a name
+# against a constant, against 1), anonymous dimensions, or are of unknown rank. Such operands are legal:
+# the expression must build (no exception at construction) and, on runtime inputs that conform to the
+# static shapes and do broadcast, compute what numpy computes.
+SYM_FIXED = [(["N"], ["M"]), (["N"], [4]), ([2, "K"], [3]), (["N"], ["N"]), (["N"], [1]), ([1], ["N"]), ([None], [3]),
+             ([None], [None]), (None, [3]), ([3], None), (None, None), (["N", "M"], ["M"]), (["N", 1], [1, "M"]),
+             ([], ["N"]), (["N"], []), ([2, "N"], ["N"]), (["B", "N", 3], [3]), (["N"], ["M", "N"]), (["N", "M"], ["M", "N"]),
+             ([None, "N"], ["M", None]), ([2, "K"], ["K"]), (["N"], [2, 3]), (None, ["N"]), (["N", 3], [None, 1])]
+SYM_DIMS = [1, 2, 3, "N", "M", "K", None]
+RDUNDER = {"add": "__radd__", "sub": "__rsub__", "mul": "__rmul__", "truediv": "__rtruediv__", "floordiv": "__rfloordiv__",
+           "and_": "__rand__", "or_": "__ror__", "xor": "__rxor__"}
+
+
+def sym_runtime_shapes(np, sa, sb, limit=3, pick=None):
+    """Runtime shape pairs that conform to the static shapes (same name = same size within the pair of
+    operands, anonymous dims independent, unknown rank = any rank <= 2) and that numpy broadcasts."""
+    import itertools
+
+    consts = sorted({d for s_ in (sa, sb) if s_ is not None for d in s_ if isinstance(d, int)} | {0, 1, 2, 3})
+    names = sorted({d for s_ in (sa, sb) if s_ is not None for d in s_ if isinstance(d, str)})
+    free = [(k, i) for k, s_ in enumerate((sa, sb)) if s_ is not None for i, d in enumerate(s_) if d is None]
+    unk = [k for k, s_ in enumerate((sa, sb)) if s_ is None]
+    ranks = [(), (1,), (3,), (2, 1), (1, 3)]
+    out = []
+    for nv in itertools.product(consts, repeat=len(names)):
+        env_ = dict(zip(names, nv))
+        for fv in itertools.product([1, 2, 3], repeat=len(free)):
+            fenv = dict(zip(free, fv))
+            for uv in itertools.product(ranks, repeat=len(unk)):
+                uenv = dict(zip(unk, uv))
+                conc = []
+                for k, s_ in enumerate((sa, sb)):
+                    if s_ is None:
+                        conc.append(uenv[k])
+                    else:
+                        conc.append(tuple(d if isinstance(d, int) else (env_[d] if isinstance(d, str) else fenv[(k, i)])
+                                          for i, d in enumerate(s_)))
+                try:
+                    np.broadcast_shapes(*conc)
+                except ValueError:
+                    continue
+                out.append(tuple(conc))
+    if not out:
+        return []
+    # prefer variety: a pair where the operands differ in some axis (one side 1), and one where they agree
+    out.sort(key=lambda c: (c[0] == c[1], -sum(c[0]) - sum(c[1])))
+    zero = [c for c in out if 0 in c[0] or 0 in c[1]]  # a zero-length axis at run time
+    nz = [c for c in out if c not in zero] or out
+    if pick is not None and len(nz) > limit:
+        rest = nz[1:-1]
+        chosen = [nz[0], nz[-1]] + ([rest[pick % len(rest)]] if rest else [])
+    else:
+        chosen = nz[:limit]
+    if zero and pick is not None:
+        chosen.append(zero[pick % len(zero)])
+    return chosen
+
+
+def symbolic_case(env: Env, c):
+    """One operator application on Vars with symbolic static shapes. -> [(key, what)]"""
+    np = env.np
+    opname, sa, sb = c["op"], c["sa"], c.get("sb")
+    settings = c.get("settings", [True, True])
+    form = c.get("form", "op")
+    unary = opname in UNARY
+    dta = np.dtype(env.dtypes[c["da"]])
+    kb = c.get("kb", "var")  # the right operand: a Var, or a Python scalar
+    dtb = np.dtype(env.dtypes[c["db"]]) if (not unary and kb == "var") else None
+    tup = lambda s_: None if s_ is None else tuple(s_)  # noqa: E731
+    if not unary and kb != "var":
+        sb = []
+
+    op_mod = env.op
+    if c.get("opset"):
+        import importlib
+
+        op_mod = importlib.import_module(f"spox.opset.ai.onnx.v{c['opset']}")  # public modules
+
+    def operand(name, dt, s_, runnable):
+        """A Var of the given static type. `build` refuses model inputs of unknown rank, so for running
+        the model an operand of unknown rank is a runtime Reshape of a flat input (static rank unknown)."""
+        if s_ is not None or not runnable:
+            v = env.spox.argument(env.spox.Tensor(dt, tup(s_)))
+            return v, {name: v}
+        flat = env.spox.argument(env.spox.Tensor(dt, (f"n_{name}",)))
+        shp = env.spox.argument(env.spox.Tensor(np.int64, (f"r_{name}",)))
+        return op_mod.reshape(flat, shp), {name: flat, f"{name}_shape": shp}
+
+    def show(dt, s_):
+        return f"Var[{dt.name}, shape={'unknown rank' if s_ is None else tuple(s_)}]"
+
+    b = c.get("scalar")
+    expr = (f"{SYM[opname]}{show(dta, sa)}" if unary else
+            f"{show(dta, sa)} {SYM[opname]} {show(dtb, sb) if kb == 'var' else repr(b)}")
+    if form == "reflected":
+        expr += f"  [as right.{RDUNDER[opname]}(left)]"
+    elif form == "swapped":
+        expr = f"{b!r} {SYM[opname]} {show(dta, sa)}"
+    if c.get("same"):
+        expr += "  [the same Var on both sides]"
+    if c.get("opset") or c.get("ambient"):
+        expr += f"  [operator_overloading(v{c.get('opset', 17)}){', inside ' + c['ambient'] if c.get('ambient') else ''}]"
+    runtime = sym_runtime_shapes(np, sa, [] if unary else sb, pick=c.get("pick"))
+    if c.get("same"):
+        runtime = [(ra, ra) for ra, _ in sym_runtime_shapes(np, sa, [], pick=c.get("pick"))]
+    if not runtime:
+        return []  # statically incompatible for all conforming values: the statement makes no demand
+
+    import contextlib
+
+    def ambient():
+        """An unrelated scoped setting around the operator application: the answer must not depend on it."""
+        amb = c.get("ambient")
+        if not amb:
+            return contextlib.nullcontext()
+        kind, _, val = amb.partition(":")
+        if kind == "vp":
+            return env.fut.value_prop_backend(getattr(env.fut.ValuePropBackend, val))
+        return env.fut.type_warning_level(getattr(env.fut.TypeWarningLevel, val))
+
+    def construct(a, b):
+        with ambient(), env.fut.operator_overloading(op_mod, type_promotion=settings[0], constant_promotion=settings[1]):
+            if unary:
+                r = PYOP[opname](a)
+            elif form == "reflected":
+                r = getattr(b, RDUNDER[opname])(a)
+            elif form == "swapped":
+                r = PYOP[opname](b, a)
+            else:
+                r = PYOP[opname](a, b)
+        if not isinstance(r, env.Var):
+            raise TypeError(f"operator returned {type(r).__name__}")
+        return r
+
+    try:
+        with warnings.catch_warnings():
+            warnings.simplefilter("ignore")
+            for runnable in ((False, True) if (sa is None or (sb is None and not unary)) else (True,)):
+                a, feeds_vars = operand("a", dta, sa, runnable)
+                if not unary and kb == "var" and c.get("same"):
+                    b = a  # ONE Var in both slots
+                elif not unary and kb == "var":
+                    b, fv = operand("b", dtb, sb, runnable)
+                    feeds_vars.update(fv)
+                r = construct(a, b)
+    except Exception as e:  # noqa: BLE001
+        ra, rb = runtime[0]
+        return [(f"{opname}:symbolic-shapes:refused:{env.err_name(e)}",
+                 f"{expr} raises {env.err_name(e)} ({str(e)[:120]}) at construction although the static shapes are legal and "
+                 f"runtime values of shapes {ra} and {rb} conform to them and broadcast")]
+    claimed = None
+    try:
+        claimed = r.unwrap_tensor().shape
+    except Exception:  # noqa: BLE001
+        pass
+    with warnings.catch_warnings():
+        warnings.simplefilter("ignore")
+        if claimed is None:  # `build` refuses results of unknown rank too: hand out the flattened result and its shape
+            outs = {"r": op_mod.reshape(r, op_mod.const(np.array([-1], dtype=np.int64))), "r_shape": op_mod.shape(r)}
+        else:
+            outs = {"r": r}
+        model = env.spox.build(feeds_vars, outs)
+    sess = env.ort.InferenceSession(model.SerializeToString(), env.so, providers=["CPUExecutionProvider"])
+    out_names = [o.name for o in model.graph.output]
+    vals = {"i": [-7, 2, -1, 3, 1, -2, 7, 5], "u": [7, 2, 1, 3, 5, 4, 9, 6], "f": [-7, 2, -1.5, 3, 0.5, -2, 7, 2.5], "b": [True, False, True, True, False]}
+    out = []
+    for k, (ra, rb) in enumerate(runtime):
+        def fill(dt, shape, off):
+            n = int(np.prod(shape)) if shape else 1
+            return np.resize(np.roll(np.array(vals[dt.kind], dtype=dt), -(off + k)), n).reshape(shape)
+        def feed(name, x):
+            if f"{name}_shape" in feeds_vars:
+                return {name: x.reshape(-1), f"{name}_shape": np.array(x.shape, dtype=np.int64)}
+            return {name: x}
+        xa = fill(dta, ra, 0)
+        feeds = feed("a", xa)
+        if unary:
+            na, nb = xa, None
+        elif kb == "var" and c.get("same"):
+            na, nb = xa, xa
+        elif kb == "var":
+            xb = fill(dtb, rb, 3)
+            feeds.update(feed("b", xb))
+            na, nb = xa, xb
+        else:
+            na, nb = xa, b
+        if form == "swapped":
+            na, nb = nb, na
+        kind, want = numpy_expect(np, opname, na, nb)
+        if kind != "ok":
+            continue
+        want = np.asarray(want)
+        try:
+            res_ = dict(zip(out_names, sess.run(None, feeds)))
+            got = np.asarray(res_["r"])
+            if "r_shape" in res_:
+                got = got.reshape(tuple(int(v) for v in res_["r_shape"]))
+        except Exception as e:  # noqa: BLE001
+            out.append((f"{opname}:symbolic-shapes:runtime-refuses", f"{expr}: onnxruntime refuses inputs of shapes {ra}, {rb}: {str(e)[:160]}"))
+            break
+        if not settings[0]:
+            # promotion off: "results keep the operands' element type"; values are numpy's where numpy keeps it too
+            if got.dtype != dta:
+                out.append(("no-promotion:result-dtype-changed", f"{expr} with type promotion off: result {got.dtype}"))
+                break
+        elif got.dtype != want.dtype:
+            out.append((f"{opname}:result-dtype", f"{expr}: spox gives {got.dtype}, numpy {want.dtype}"))
+            break
+        if got.shape != want.shape:
+            out.append((f"{opname}:result-shape", f"{expr} on runtime shapes {ra}, {rb}: shape {got.shape}, numpy {want.shape}"))
+            break
+        if got.dtype != want.dtype:
+            continue
+        if claimed is not None and (len(claimed) != len(want.shape) or any(isinstance(d, int) and d != w for d, w in zip(claimed, want.shape))):
+            out.append((f"{opname}:symbolic-shapes:claimed-shape-contradicted",
+                        f"{expr}: the result is typed with shape {claimed}, but on conforming inputs of shapes {ra}, {rb} it has shape {want.shape}"))
+            break
+        if opname == "floordiv" and want.dtype.kind == "f":
+            continue
+        ok = agree(np, got, want, exact=opname in EXACT_OPS)
+        if not ok.all():
+            idx = tuple(np.argwhere(~ok)[0])
+            out.append((f"{opname}:{'float' if want.dtype.kind == 'f' else 'int'}:wrong-value",
+                        f"{expr} at a={xa.tolist()}, b={nb.tolist() if hasattr(nb, 'tolist') else nb}: spox {got[idx]!r}, numpy {want[idx]!r} at {idx}"))
+            break
+    return out
+
+
+def gen_symbolic(rng, n_random, ND):
+    """Cases: every overloaded operator x fixed + seeded shape pairs x dtypes x settings x call form."""
+    cases = []
+
+    def rshape():
+        if rng.random() < 0.12:
+            return None
+        return [rng.choice(SYM_DIMS) for _ in range(rng.choice([0, 1, 1, 2, 2, 3]))]
+
+    pairs = list(SYM_FIXED) + [(rshape(), rshape()) for _ in range(n_random)]
+    num = list(range(11))
+    for k, (sa, sb) in enumerate(pairs):
+        for opname in BIN:
+            st = rng.choice(SETTINGS[1:])
+            da = rng.choice(num)
+            db = rng.choice(num) if st[0] else da
+            form = "reflected" if rng.random() < 0.25 else "op"
+            cases.append({"op": opname, "da": da, "db": db, "sa": sa, "sb": sb, "settings": st, "form": form, "pick": k})
+        for opname in (LOGIC if k < len(SYM_FIXED) else [LOGIC[k % 3]]):
+            cases.append({"op": opname, "da": 11, "db": 11, "sa": sa, "sb": sb, "settings": rng.choice(SETTINGS[1:]),
+                          "form": "reflected" if k % 4 == 3 else "op", "pick": k})
+        # a Python scalar on either side of a Var with a symbolic shape
+        opname = BIN[k % 5]
+        d = rng.choice(num)
+        sc = rng.choice([2, 3, -1] if d not in (4, 5, 6, 7) else [2, 3]) if rng.random() < 0.6 or d < 8 else 2.5
+        cases.append({"op": opname, "da": d, "sa": sa, "kb": "scalar", "scalar": sc, "settings": [isinstance(sc, float) or rng.random() < 0.7, True],
+                      "form": "swapped" if k % 2 else "op", "pick": k})
+        cases.append({"op": "neg", "da": rng.choice([0, 1, 2, 3, 8, 9, 10]), "sa": sa, "settings": rng.choice(SETTINGS[1:]), "pick": k})
+        cases.append({"op": "not_", "da": 11, "sa": sb, "settings": rng.choice(SETTINGS[1:]), "pick": k})
+        # ONE Var in both operand slots
+        opname = (BIN + LOGIC)[k % 8]
+        d = 11 if opname in LOGIC else rng.choice(num)
+        cases.append({"op": opname, "da": d, "db": d, "sa": sa, "sb": sa, "same": True, "settings": rng.choice(SETTINGS[1:]), "pick": k})
+    ambients = [None, None, "vp:NONE", "vp:ONNXRUNTIME", "vp:REFERENCE", "tw:NONE", "tw:CRITICAL", "tw:OUTPUTS"]
+    for i, c_ in enumerate(cases):
+        # every opset module of ai.onnx, every value of the two unrelated scoped settings
+        c_["opset"] = [17, 18, 19, 20, 21][(i + i // 5) % 5]
+        amb = ambients[(i + i // 8) % 8]
+        if amb:
+            c_["ambient"] = amb
+    return cases
+
+
 def describe(env, opname, oa, ob):
     def d(o):
         if o is None:
@@ -1060,6 +1344,7 @@ CHECKS = {
     "outside": lambda env, c: outside_case(env, c["op"], c["a"], c.get("b")),
     "history": lambda env, c: history_value_case(env, c["hist"])[0],
     "scoped": lambda env, c: scoped_case(env, c["prog"])[1],
+    "symbolic": lambda env, c: symbolic_case(env, c),
     "shape": lambda env, c: shape_value_case(env, c["op"], c["da"], c["db"], tuple(c["sa"]), tuple(c["sb"])),
 }
 
@@ -1070,6 +1355,26 @@ def run(ck: core.Check):
     table = result_type.generate()
     ck.cov["generated_table"] = {"dtypes": table["dtypes"], "numpy": table["numpy"],
                                  "target_kinds": len(table["rt2"]), "onnx_ops": sorted(table["allowed"])}
+    # wiring of Var's operator dunders to the dispatcher + inventory of the dispatcher classes (tie G ->
+    # var_dunders_wired); digests of the covered function bodies vs the committed baseline: a changed body
+    # (an added early check, a cache ...) escalates the seeded parts of this run to the thorough counts
+    boost = False
+    try:
+        import json as _json
+        from pathlib import Path
+
+        from translator import var_dunders
+
+        vd = var_dunders.generate()
+        base_ = _json.loads((Path(__file__).resolve().parent.parent / "c17_source_baseline.json").read_text())["digests"]
+        changed_ = sorted(k for k in set(base_) | set(vd["digests"]) if base_.get(k) != vd["digests"].get(k))
+        boost = bool(changed_)
+        ck.cov["operator_wiring"] = {"dunders": len(vd["wires"]), "opaque": [w[0] for w in vd["wires"] if w[1] == "opaque"],
+                                     "changed_since_baseline": changed_}
+        if boost:
+            ck.notes.append(f"dispatcher / Var operator code differs from the committed baseline: {changed_} - seeded parts run with thorough counts")
+    except Exception as e:  # noqa: BLE001
+        ck.broken("generated", "C17 operator wiring inventory", f"{type(e).__name__}: {e}")
     ck.lean(["SpoxModel.Props.C17"], audit="SpoxModel.Audit.C17")
     if ck.thorough:
         ck.leanchecker(["SpoxModel.Props.C17"])
@@ -1084,6 +1389,11 @@ def run(ck: core.Check):
     # ------------------------------------------------------------------ correspondence: dispatch decisions
     scal = [["int", 3], ["int", -1], ["int", 1000], ["int", 2 ** 40], ["float"], ["bool", True],
             ["other", "none"], ["other", "str"], ["other", "ellipsis"]] + [["np", d] for d in range(ND)]
+    # malformed operands of other shapes: containers, numeric-looking strings, bytes, arrays, non-real numbers
+    JUNK = ["list", "bytes", "numstr", "dtypestr", "arr0", "arr1", "fraction", "dict", "set", "gen", "varlist", "type"]
+    # (a Python complex is not among them: with promotion on, the Var is first cast to complex128 - which ONNX Cast refuses,
+    #  InferenceError - before the constant is looked at; operand kinds the model does not describe are left out)
+    scal += [["other", k] for k in JUNK]
     # constants equal to a neutral element of some operator (0, 1, -1, 0.0, 1.0, -0.0, False) and numpy scalars 0 / 1
     scal += [["int", 0], ["int", 1], ["float", 0.0], ["float", 1.0], ["float", -0.0], ["float", -1.0], ["bool", False]]
     scal += [["np", d, v] for d in (2, 3, 9, 10, 4) for v in (0, 1)]
@@ -1091,7 +1401,8 @@ def run(ck: core.Check):
     for d in range(ND):
         for s in scal:
             pairs.append((["var", d], s))
-            pairs.append((s, ["var", d]))
+            if not (s[0] == "other" and len(s) > 1 and s[1] in ("arr0", "arr1")):
+                pairs.append((s, ["var", d]))  # (an ndarray on the left is numpy's own dispatch, not the dispatcher's)
     cases = []
     for st in SETTINGS:
         for opname in BIN + LOGIC:
@@ -1181,7 +1492,10 @@ def run(ck: core.Check):
                 value_cases.append((opname, ["var", a], ["var", b]))
         for d in NUM:
             for s in [["int", 2], ["int", -7], ["int", -1], ["int", 3], ["float", 10.0], ["float", 0.5], ["float", -2.5], ["bool", True],
-                      ["int", 0], ["int", 1], ["float", 0.0], ["float", 1.0], ["float", -0.0], ["float", -1.0], ["bool", False]]:
+                      ["int", 0], ["int", 1], ["float", 0.0], ["float", 1.0], ["float", -0.0], ["float", -1.0], ["bool", False],
+                      # non-finite / out-of-range / denormal Python floats, ints at the edges of the small integer types
+                      ["float", float("inf")], ["float", float("nan")], ["float", 1e40], ["float", 1e-320],
+                      ["int", 127], ["int", -128], ["int", 255]]:
                 value_cases.append((opname, ["var", d], s))
                 value_cases.append((opname, s, ["var", d]))
             for s in [["np", 9, 0], ["np", 9, 1], ["np", 3, 0], ["np", 3, 1], ["np", 10, 1]]:
@@ -1233,6 +1547,21 @@ def run(ck: core.Check):
         opname, a, b = job
         dt_a = env.dtypes[a]
         xs = grid(np, dt_a)
+        if isinstance(b, tuple):
+            # a Python int on the right ("r") or on the left ("l") of an integer Var: theorems arith_scalar_right/left
+            side, v = b
+            vv = grid(np, dt_a, divisor=(opname == "floordiv" and side == "l"))
+            if opname == "floordiv" and side == "l":
+                vv = vv[vv != -1]
+            va = env.spox.argument(env.spox.Tensor(np.dtype(dt_a), ("N",)))
+            with env.fut.operator_overloading(env.op, type_promotion=True):
+                rr = PYOP[opname](va, v) if side == "r" else PYOP[opname](v, va)
+            got, _ = env.run_model(rr, {"a": va}, {"a": vv})
+            if side == "r":
+                return ({"settings": [True, True], "op": opname, "a": ["var", a], "b": ["int", v],
+                         "xs": [int(t) for t in vv], "ys": [v]}, [[int(t)] for t in got])
+            return ({"settings": [True, True], "op": opname, "a": ["int", v], "b": ["var", a],
+                     "xs": [v], "ys": [int(t) for t in vv]}, [[int(t) for t in got]])
         if opname == "neg":
             va = env.spox.argument(env.spox.Tensor(np.dtype(dt_a), ("N",)))
             with env.fut.operator_overloading(env.op, type_promotion=True):
@@ -1257,6 +1586,12 @@ def run(ck: core.Check):
 
     jobs = [(opname, a, b) for opname in ["add", "sub", "mul", "floordiv"] for a in INT for b in INT]
     jobs += [("neg", a, None) for a in range(4)]
+    for opname in ["add", "sub", "mul", "floordiv"]:
+        for a in INT:
+            signed = np.dtype(env.dtypes[a]).kind == "i"
+            for v in ([2, -3, 7, 1] if signed else [2, 3, 7, 1]):
+                jobs.append((opname, a, ("r", v)))
+                jobs.append((opname, a, ("l", v)))
     for job, res in zip(jobs, forked_batch(ort_grid, jobs)):
         if res[0] != "ok":
             ck.broken("correspondence", "C17 integer semantics (eval) vs onnxruntime", f"{job}: {res}")
@@ -1324,8 +1659,55 @@ def run(ck: core.Check):
             ck.failure(key, what, case)
     ck.cov["shape_cases"] = {"dispatch": len(sh_cases), "values": len(sv_cases), "dispatch_mismatches": sh_mism}
 
+
+    # ------------------------------------------------------------------ symbolic static shapes (named / anonymous dims, unknown rank)
+    sym_cases = gen_symbolic(rng, 200 if boost else ck.pick(36, 400), ND)
+    sym_stats = {"cases": len(sym_cases), "with_runtime_inputs": 0, "dispatch_mismatches": 0}
+    # (a) the dispatch decision must not depend on the static shapes (the model is shape-blind)
+    sym_disp = [c for c in sym_cases if c.get("kb", "var") == "var" and c.get("form", "op") == "op"
+                and sym_runtime_shapes(np, c["sa"], [] if c["op"] in UNARY else c["sb"], limit=1)]
+    try:
+        sym_reqs = [{"settings": c["settings"], "op": c["op"], "a": ["var", c["da"]],
+                     "b": ["var", c["db"]] if c["op"] not in UNARY else ["other"]} for c in sym_disp]
+        sym_model = ck.driver().ask_many("C17", sym_reqs) if model is not None else None
+    except Exception as e:  # noqa: BLE001
+        ck.broken("correspondence", "C17 driver (symbolic shapes)", str(e))
+        sym_model = None
+    for k, c in enumerate(sym_disp):
+        try:
+            with warnings.catch_warnings():
+                warnings.simplefilter("ignore")
+                res, _, _ = env.dispatch(c["settings"], c["op"], ["var", c["da"], c["sa"]],
+                                         ["var", c["db"], c["sb"]] if c["op"] not in UNARY else ["other"])
+        except Exception as e:  # noqa: BLE001
+            res = {"unobservable": f"{type(e).__name__}: {e}"}
+        if sym_model is not None and "unobservable" not in res and sym_model[k] != res:
+            sym_stats["dispatch_mismatches"] += 1
+            if sym_stats["dispatch_mismatches"] <= 3:
+                ck.broken("correspondence", "C17 dispatcher model-vs-implementation (symbolic static shapes)",
+                          f"settings={c['settings']} Var[{env.dtypes[c['da']]}{c['sa']}] {SYM[c['op']]} "
+                          f"{'Var[' + env.dtypes[c['db']] + str(c['sb']) + ']' if c['op'] not in UNARY else ''}: model (shape-blind) {sym_model[k]} real {res}")
+    env.restore_dispatcher(saved)
+    # (b) model-free: builds, and onnxruntime on conforming runtime inputs that broadcast = numpy
+    for c, res in zip(sym_cases, forked_batch(lambda c_: symbolic_case(env, c_), sym_cases, size=48)):
+        ck.count(("symbolic", c["op"], repr(c["sa"]), repr(c.get("sb")), c.get("form", "op")))
+        case = dict(c, check="symbolic")
+        if sym_runtime_shapes(np, c["sa"], [] if (c["op"] in UNARY or c.get("kb") == "scalar") else c["sb"], limit=1):
+            sym_stats["with_runtime_inputs"] += 1
+        if res[0] != "ok":
+            if res[0] == "exc" and res[1].split(":")[0] in ("AttributeError", "ImportError", "ModuleNotFoundError", "NameError"):
+                ck.broken("correspondence", "C17 symbolic-shape oracle could not observe spox", res[1])
+            else:
+                ck.failure(f"{c['op']}:runtime-crash" if res[0] == "crash" else f"{c['op']}:oracle-exception", f"{case}: {res[1]}", case)
+            continue
+        for key, what in res[1]:
+            ck.failure(key, what, case)
+    ck.cov["symbolic_shape_cases"] = sym_stats
+    if sym_stats["with_runtime_inputs"] < len(sym_cases) // 3:
+        ck.broken("generator", "C17 symbolic shapes starved", str(sym_stats))
+
     # ------------------------------------------------------------------ expression histories (hidden state)
-    n_hist_v, n_hist_c = ck.pick(150, 1500), ck.pick(250, 2500)
+    n_hist_v, n_hist_c = (400, 600) if boost else (ck.pick(150, 1500), ck.pick(250, 2500))
     hists_v = list(FIXED_HISTORIES) + [gen_history(rng, True) for _ in range(n_hist_v)]
     hists_c = list(FIXED_HISTORIES) + [gen_history(rng, False) for _ in range(n_hist_c)]
     hist_mism = 0
